@@ -2230,6 +2230,21 @@ func (interp *Interpreter) cfg(root *node, sc *scope, importPath, pkgName string
 				}
 				break
 			}
+			if n.kind == switchStmt {
+				// The case expressions must be comparable to the tag of the switch.
+				tag := n.child[len(n.child)-2]
+				for _, c := range clauses {
+					for _, e := range c.child {
+						if e.kind == caseBody || e.typ == nil || tag.typ == nil {
+							continue
+						}
+						if !e.typ.assignableTo(tag.typ) && !tag.typ.assignableTo(e.typ) {
+							err = e.cfgErrorf("invalid case in switch (mismatched types %s and %s)", e.typ.id(), tag.typ.id())
+							return
+						}
+					}
+				}
+			}
 			// Chain case clauses.
 			for i := l - 1; i >= 0; i-- {
 				c := clauses[i]
